@@ -172,6 +172,14 @@ class Ctx:
         r.sctlr.afe = 1
         r.sctlr.tre = 0
         r.sctlr.m = 1
+        # the Hyp-mode stage-1 regime walks the same tables (HTTBR / HTCR.T0SZ = 0 / HMAIR, HSCTLR.M = 1): Hyp-mode steps of
+        # this context see Normal memory where the tables say so (with the Hyp MMU off every Hyp-mode access would be
+        # Strongly-ordered and any unaligned one would fault, whatever HSCTLR.A says)
+        r.httbr = L1
+        r.htcr.value = 0
+        r.hmair0 = 0xFF440400
+        r.hmair1 = 0xFF440400
+        r.hsctlr.m = 1
 
     def fresh(self):
         M.activate(self.cpu)
